@@ -116,6 +116,25 @@ macro_rules! frost_suite {
             req!(fails, evals, name, chosen.len() == t && sorted && chosen.iter().all(|x| enc_offered.contains(&x.encode().to_vec())), "choose:selection", "choose() returned {} commitments (t={}), sorted+distinct={}", chosen.len(), t, sorted);
             let enc_list = Commitment::encode_list(&chosen);
             req!(fails, evals, name, Commitment::decode_list(&enc_list).map(|l| Commitment::encode_list(&l)) == Some(enc_list.clone()), "wire:commitment_list", "commitment list does not round-trip");
+            // disorder / repetition that does not involve the first entry
+            if chosen.len() >= 3 {
+                let l = chosen.len();
+                let mut sw = chosen.clone();
+                sw.swap(l - 2, l - 1);
+                req!(fails, evals, name, Commitment::decode_list(&Commitment::encode_list(&sw)).is_none(), "wire:list_unsorted_tail", "decode_list accepted a list whose last two entries are swapped");
+                let mut sw = chosen.clone();
+                sw.swap(1, 2);
+                req!(fails, evals, name, Commitment::decode_list(&Commitment::encode_list(&sw)).is_none(), "wire:list_unsorted_middle", "decode_list accepted a list whose entries 2 and 3 are swapped");
+            }
+            if chosen.len() >= 2 {
+                let mut dup = chosen.clone();
+                let last = *dup.last().unwrap();
+                dup.push(last);
+                req!(fails, evals, name, Commitment::decode_list(&Commitment::encode_list(&dup)).is_none(), "wire:list_duplicate_tail", "decode_list accepted a list whose last entry is repeated");
+                let mut dup = chosen.clone();
+                dup.insert(0, chosen[0]);
+                req!(fails, evals, name, Commitment::decode_list(&Commitment::encode_list(&dup)).is_none(), "wire:list_duplicate_head", "decode_list accepted a list whose first entry is repeated");
+            }
             // fewer than t distinct commitments must not be enough
             if distinct.len() >= t && t >= 2 {
                 let few: Vec<Commitment> = chosen[..t - 1].to_vec();
